@@ -427,8 +427,14 @@ class Ref:
                 (what, target), e = t['explicit'][i], explicit[i]
                 if what == 'task' and e is not None and target not in t['read_targets']:
                     t['read_targets'].append(target)
+            # inputs that are run ARGUMENTS are evaluated before the run body starts (if one of them fails, the run never starts)
+            t['arg_targets'] = []
+            for i in order:
+                (what, target) = t['explicit'][i]
+                if expl_specs[i].get('access') == 'args' and what == 'task' and explicit[i] is not None and target not in t['arg_targets']:
+                    t['arg_targets'].append(target)
             if all_d:
-                t['read_targets'] = list(t['inputs'])
+                t['read_targets'] = t['arg_targets'] + [m for m in t['inputs'] if m not in t['arg_targets']]
             t['h'] = rt.descriptor_hash(t['slug'], {k: pcanon_cfg(v) for k, v in t['persisted'].items()}, explicit, all_d)
             t['vdigest'] = rt.expected_vdigest(kind, t['h'])
             # computation descriptor for C02/C03: slug + persisted params + input descriptors (all inputs, as the key sees them)
